@@ -7,6 +7,7 @@ import envelope_checks
 import misc_checks
 import idl_checks
 import gen_checks
+import session_checks
 
 CHECKS = {
     "C01": (conn_checks.c01, conn_checks.replay_framing),
@@ -28,5 +29,6 @@ CHECKS = {
     "C17": (write_checks.c17, write_checks.replay_writing),
     "C18": (server_checks.c18, server_checks.replay_server),
     "C19": (misc_checks.c19, misc_checks.replay_generic),
+    "E2E": (session_checks.e2e, session_checks.replay),
     "C20": (misc_checks.c20, misc_checks.replay_generic),
 }
